@@ -313,7 +313,11 @@ impl<T: Qcow2IoOps> Qcow2Dev<T> {
             Some(to_kill) => {
                 log::warn!("add_rb_slice: cache eviction, slices {}", to_kill.len());
                 let evicted = to_kill.clone();
-                let res = self.flush_cache_entries(to_kill, false).await;
+                let res = {
+                    // see flush_refcount()
+                    let _wb_lock = self.refcount_wb_lock.lock().await;
+                    self.flush_cache_entries(to_kill, false).await
+                };
                 if res.is_err() {
                     // the evicted slices hold the only copy of their updates
                     self.refblock_cache.put_back(evicted.clone());
